@@ -341,7 +341,7 @@ def run(ctx):
     if ctx.tier == "thorough":
         ht = build("tsan")
         run_stress(ctx, ht, drv, "tsan", variant="tsan")
-    if ctx.proof_broken or ctx.corr_broken:
+    if (ctx.proof_broken or ctx.corr_broken) and not ctx.violations:
         ctx.log("obligation or correspondence broken: widening the search for a failing input")
         for i in range(3):
             explore(ctx, h, drv, 600, "search%d" % i, tier="thorough")
